@@ -19,7 +19,7 @@ func cloneRec(r record) record {
 // model, (iii) a wrong table line.
 func selfTest(ctx *core.Ctx) error {
 	// (i) real records, one field corrupted each
-	ob, err := observe(spec{API: "Write", Style: "prefix", N: 129, Seed: 1, Per: 2})
+	ob, err := observe(spec{API: "Write", Style: "prefix", N: 129, Seed: 1, Per: 2, Ctx: "stream+puts"})
 	if err != nil || ob == nil {
 		return core.Infra("self-test: %v", err)
 	}
@@ -81,6 +81,15 @@ func selfTest(ctx *core.Ctx) error {
 	add("All yields two entries in the wrong order", "Enumerates", good, func(r *record) {
 		r.AllK[3], r.AllK[4] = r.AllK[4], r.AllK[3]
 		r.AllV[3], r.AllV[4] = r.AllV[4], r.AllV[3]
+	})
+	add("All() calls the consumer once more after it stopped", "EarlyExit", good, func(r *record) {
+		e := &r.Exits[len(r.Exits)/2]
+		e.SK, e.SV = append(e.SK, r.AllK[e.K]), append(e.SV, r.AllV[e.K])
+	})
+	add("a range loop over the in-memory All() panics on break", "EarlyExitInMemory", good, func(r *record) { r.Exits[0].MP = 1 })
+	add("early exit yields too few entries", "EarlyExit", obNum.Rec, func(r *record) {
+		e := &r.Exits[len(r.Exits)-2]
+		e.SK, e.SV = e.SK[:len(e.SK)-1], e.SV[:len(e.SV)-1]
 	})
 	add("Size is off by one", "Size", good, func(r *record) { r.Size++ })
 	add("a kid is referenced twice", "Valid", good, func(r *record) {
@@ -153,7 +162,8 @@ func selfTest(ctx *core.Ctx) error {
 	ctx.Logf("self-test (i): %d corrupted records rejected for the expected reason, %d intact ones accepted", len(cs), nGood)
 
 	// (ii) the seeded defects must violate the design model
-	for v, want := range map[string]string{"limitsMaxOff": "Valid", "limitsMinOff": "Valid", "lookupStrict": "Faithful", "collapseAll": "Valid"} {
+	for v, want := range map[string]string{"limitsMaxOff": "Valid", "limitsMinOff": "Valid", "lookupStrict": "Faithful", "collapseAll": "Valid",
+		"yieldBreak": "EarlyExit", "leafBufReuse": "Valid"} {
 		res, err := ctx.TLC(core.TLCOpts{Dir: "tree", Module: "MC_KeyTree", Cfg: "MC_KeyTree_neg_" + v + ".cfg", Workers: 4, Mode: "negative-control"})
 		if err != nil {
 			return err
@@ -169,7 +179,7 @@ func selfTest(ctx *core.Ctx) error {
 	if res.Invariant != "MemEnumerates" && res.Invariant != "MemWrite" {
 		return core.Infra("self-test: variant cachedKeys should violate MemEnumerates/MemWrite, got %q", res.Invariant)
 	}
-	ctx.Logf("self-test (ii): the four seeded defects (limits max/min off by one, strict lookup comparison, collapse without grouping) and the kept key slice of the in-memory value violate the models")
+	ctx.Logf("self-test (ii): the six seeded defects (limits max/min off by one, strict lookup comparison, collapse without grouping, lost stop signal in All, shared leaf buffer with queued Puts) and the kept key slice of the in-memory value violate the models")
 
 	// (iii) a wrong table line must be noticed
 	if checkTable(genCase{N: 129, Accept: false}, ob) == "" || checkTable(genCase{N: 128, Accept: true}, ob) == "" ||
